@@ -30,7 +30,12 @@ Numerals ==
   \cup {Numeral(FALSE, <<1>>, <<7,9,7,6,9,3,1,3,4,8,6,2,3,1,5,7>>, E1(FALSE, <<3,0,8>>)),      \* max finite
         Numeral(FALSE, <<4>>, <<9>>, E1(TRUE, <<3,2,4>>)),                                    \* min subnormal
         Numeral(FALSE, <<2>>, <<2,2,5,0,7,3,8,5,8,5,0,7,2,0,1,4>>, E1(TRUE, <<3,0,8>>)),      \* min normal
-        Numeral(FALSE, <<0>>, <<1>>, NoExp), Numeral(FALSE, <<0>>, <<3>>, NoExp) }
+        Numeral(FALSE, <<0>>, <<1>>, NoExp), Numeral(FALSE, <<0>>, <<3>>, NoExp),
+        \* doubles that are also exact in single precision but need more than nine digits: 2^32, 2^30, 2^40, 2^53 as floats, 2^-14, 2^-20
+        Numeral(FALSE, <<4,2,9,4,9,6,7,2,9,6>>, <<0>>, NoExp), Numeral(TRUE, <<1,0,7,3,7,4,1,8,2,4>>, <<0>>, NoExp), Numeral(FALSE, <<1,0,9,9,5,1,1,6,2,7,7,7,6>>, <<0>>, NoExp),
+        Numeral(FALSE, <<9,0,0,7,1,9,9,2,5,4,7,4,0,9,9,2>>, <<0>>, NoExp), Numeral(FALSE, <<0>>, <<0,0,0,0,6,1,0,3,5,1,5,6,2,5>>, NoExp),
+        Numeral(FALSE, <<9>>, <<5,3,6,7,4,3,1,6,4,0,6,2,5>>, E1(TRUE, <<7>>)), Numeral(FALSE, <<1,6,7,7,7,2,1,6>>, <<0>>, NoExp), Numeral(FALSE, <<1,6,7,7,7,2,1,7>>, <<0>>, NoExp),
+        Numeral(FALSE, <<3>>, <<1,4,1,5,9,2,7,4,1,0,1,2,5,7,3,2,4>>, NoExp) }
 
 Wrap(kind, t) == CASE kind = 1 -> t
                    [] kind = 2 -> <<91, 32>> \o t \o <<32, 44, 49, 93>>                       \* [ n ,1]
@@ -118,6 +123,8 @@ StructTexts == <<
   <<91,51,44,49,44,50,44,49,44,51,93>>, <<91,110,117,108,108,44,102,97,108,115,101,44,34,34,44,48,44,91,93,44,123,125,93>>,
   <<32,123,32,34,97,34,32,58,32,91,32,49,32,44,32,50,32,93,32,44,32,34,98,34,32,58,32,110,117,108,108,32,125,32>>,
   <<123,34,92,117,48,48,54,49,34,58,49,44,34,97,34,58,50,125>>,
+  <<123,34,34,58,49,44,34,97,34,58,50,125>>, <<123,34,97,34,58,123,34,34,58,110,117,108,108,125,125>>, <<91,123,34,34,58,91,93,125,93>>, <<123,34,34,58,123,34,34,58,34,34,125,125>>,   \* empty-string keys
+  <<123,34,34,58,49,44,34,34,58,50,125>>, <<91,34,34,44,34,34,93>>, <<123,34,32,34,58,49,44,34,34,58,50,125>>,
   <<123,34,233,34,58,49,44,34,101,34,58,50,44,34,122,34,58,51,44,34,90,34,58,52,44,34,128512,34,58,53,44,34,65535,34,58,54,125>> >>
 StructCases(zzdummy) == [i \in DOMAIN StructTexts |-> [e |-> "json", kind |-> "struct", text |-> StructTexts[i], numerals |-> <<>>, classes |-> <<>>]]
 
